@@ -90,6 +90,32 @@ Section Defs.
   (* demonic memo reads: zero or the truth *)
   Definition Rdem (truth : id -> digest) (s : state) (i : id) (d : digest) : Prop := d = 0 \/ d = truth i.
 
+
+  (* ---------- allocation discipline of the tree-building functions ---------- *)
+  (* the program only allocated: the memo table is literally unchanged *)
+  Definition alloc_only (s s' : state) : Prop := memo s' = memo s /\ (next s <= next s')%positive.
+  (* every node of t is either a node of one of the source trees (retained, same identity) or was
+     allocated between s and s' *)
+  Definition fresh_or_from (s s' : state) (srcs : list tree) (t : tree) : Prop :=
+    forall u, subt u t ->
+      (exists t0, In t0 srcs /\ subt u t0) \/ ((next s <= idof u)%positive /\ (idof u < next s')%positive).
+
+  (* ---------- what a level iterator yields ---------- *)
+  (* items are the consecutive level-L blocks of the list `rest`: every Internal item is a tree whose
+     shape is the canonical tree (of depth L - pd) of its block, all blocks but the last are full
+     (2^L elements); at level 0 of a packed kind the items are the single elements. *)
+  Inductive items_blocks (L : nat) : list (level_node T) -> list T -> Prop :=
+  | ib_nil : items_blocks L [] []
+  | ib_internal u blk items rest :
+      blk <> [] -> shape u = canon ek (L - pd_of ek) blk ->
+      (lenN blk = pow2 L \/ (rest = [] /\ lenN blk <= pow2 L)) ->
+      items_blocks L items rest -> items_blocks L (LInternal u :: items) (blk ++ rest)
+  | ib_packed v items rest :
+      L = O -> is_packed ek = true ->
+      items_blocks L items rest -> items_blocks L (LPackedLeaf v :: items) (v :: rest).
+  Definition internal_nodes (items : list (level_node T)) : list tree :=
+    flat_map (fun x => match x with LInternal u => [u] | LPackedLeaf _ => [] end) items.
+
   (* ---------- per-handle invariant ---------- *)
   (* h represents the plain list l (pending writes included) *)
   Definition habs (h : handle) (l : list T) : Prop :=
